@@ -182,3 +182,44 @@ Print Assumptions C17_tie_objective.
 Theorem C17_tie_ids : gen_ids_must_be_strings = true /\ gen_duplicate_ids_refused = true.
 Proof. exact tie_ids. Qed.
 Print Assumptions C17_tie_ids.
+
+(** * Annealing.  The temperature schedule is a parameter of the modelled run (Api/PersonalizeAnneal.v); a scheme with
+    `annealing.n_plateau = 1` or `oscillations` ENDS at a temperature different from 1.  [C17_mode] is about the
+    UNTEMPERED loss attachment + regularity: stated here for an annealed run, for every schedule, together with the
+    fact that replacing the schedule by any other one leaves the answer unchanged. *)
+From Leaspy Require Import Api.PersonalizeAnneal Api.PersonalizeAnnealProofs.
+
+Theorem C17_mode_ignores_temperature : forall (c : chain) (tinv : Z -> Q) n nb ids out,
+  personalize_mode_annealed (mkRun c tinv) n nb ids = Ok out ->
+  (aligned ids out /\
+   forall i, (i < length ids)%nat -> exists k cl,
+     kept n nb k /\ nth_error (c k) i = Some cl /\ nth_error (map snd out) i = Some (vals cl) /\
+     (forall k' cl', kept n nb k' -> nth_error (c k') i = Some cl' -> (mode_loss cl <= mode_loss cl')%Q) /\
+     (forall k' cl', kept n nb k' -> (k' < k)%Z -> nth_error (c k') i = Some cl' -> (mode_loss cl < mode_loss cl')%Q)) /\
+  (forall tinv' : Z -> Q, personalize_mode_annealed (mkRun c tinv') n nb ids = Ok out).
+Proof. exact mode_ignores_temperature. Qed.
+Print Assumptions C17_mode_ignores_temperature.
+
+(** The annealed run is the plain model on its chain (so every C17_mode* / C17_mean* theorem applies to it). *)
+Theorem C17_annealed_is_plain : forall r n nb ids dim,
+  personalize_mode_annealed r n nb ids = personalize_mode (run_chain r) n nb ids /\
+  personalize_mean_annealed r n nb ids dim = personalize_mean (run_chain r) n nb ids dim.
+Proof. intros. split; [apply annealed_is_plain | reflexivity]. Qed.
+Print Assumptions C17_annealed_is_plain.
+
+(** Why this is stated separately: selecting by the TEMPERED loss attachment + temperature_inv * regularity is
+    invisible on every run that ends at temperature 1 (all default runs) ... *)
+Theorem C17_mode_tempered_rule_agrees_at_T1 : forall r n nb ids,
+  (run_tinv r (n + 1) == 1)%Q -> personalize_mode_tempered r n nb ids = personalize_mode_annealed r n nb ids.
+Proof. exact tempered_agrees_at_T1. Qed.
+Print Assumptions C17_mode_tempered_rule_agrees_at_T1.
+
+(** ... and returns a kept draw of strictly higher loss on a run that ends elsewhere. *)
+Theorem C17_mode_tempered_rule_differs :
+  exists r n nb ids out out' k k' cl cl',
+    (0 < run_tinv r (n + 1) /\ run_tinv r (n + 1) < 1)%Q /\
+    personalize_mode_annealed r n nb ids = Ok out /\ personalize_mode_tempered r n nb ids = Ok out' /\
+    kept n nb k /\ kept n nb k' /\ nth_error (run_chain r k) 0 = Some cl /\ nth_error (run_chain r k') 0 = Some cl' /\
+    map snd out = [vals cl] /\ map snd out' = [vals cl'] /\ (mode_loss cl < mode_loss cl')%Q.
+Proof. exact tempered_selection_differs. Qed.
+Print Assumptions C17_mode_tempered_rule_differs.
